@@ -1,8 +1,10 @@
 (* Faults.v — property C09: what a Workflow reconcile pass does when API calls
    fail, and what a single ResourceFunction does when its API calls fail.
 
-   PART 1 (src/koreo/workflow/reconcile.py, as it is NOW, i.e. after commit
-   "fix: timed-out and crashed workflow steps no longer emit a Ready condition"):
+   PART 1 (src/koreo/workflow/reconcile.py, as it is NOW, i.e. after the commits
+   "fix: timed-out and crashed workflow steps no longer emit a Ready condition" and
+   "fix: a step that raises an exception object with a false truth value is
+   reported as Retry" — the loops test `task.exception() is not None`):
      task end states                          tend
      _reconcile_steps  151-192  loop body     classify / step_entry
      _reconcile_steps  100-218                reconcile_steps
@@ -40,12 +42,12 @@ Definition UNKNOWN_ERROR_RETRY_DELAY : Z := 60.
 (* StepResult.result : an UnwrappedOutcome (bare value or non-Ok outcome) *)
 Notation sres := (uoutcome json).
 
-(* How an asyncio task ended.  [Excepted truthy]: the task raised an exception
-   object e; [truthy] = bool(e)  (the code tests `elif task.exception():`). *)
+(* How an asyncio task ended.  [Excepted]: the task raised an exception (any
+   object: the code tests `elif task.exception() is not None:`). *)
 Inductive tend :=
 | Finished (r : sres)
 | Cancelled
-| Excepted (truthy : bool).
+| Excepted.
 
 (* a Python exception escaping the function being modelled *)
 Inductive wres (A : Type) := WDone (a : A) | WRaised.
@@ -53,9 +55,9 @@ Arguments WDone {A}. Arguments WRaised {A}.
 
 Definition task_cancelled (e : tend) : bool :=
   match e with Cancelled => true | _ => false end.
-(* truthiness of task.exception() (None when the task returned) *)
-Definition task_exception_truthy (e : tend) : bool :=
-  match e with Excepted t => t | _ => false end.
+(* task.exception() is not None (None when the task returned) *)
+Definition task_has_exception (e : tend) : bool :=
+  match e with Excepted => true | _ => false end.
 (* task.result(): returns, or re-raises CancelledError / the exception *)
 Definition task_result (e : tend) : wres sres :=
   match e with Finished r => WDone r | _ => WRaised end.
@@ -70,7 +72,7 @@ Definition error_outcome : sres :=
    a TaskGroup is done when the group has exited) *)
 Definition classify (e : tend) : wres sres :=
   if task_cancelled e then WDone timeout_outcome
-  else if task_exception_truthy e then WDone error_outcome
+  else if task_has_exception e then WDone error_outcome
   else task_result e.
 
 (* ---------- conditions ---------- *)
@@ -107,7 +109,7 @@ Definition step_entry (i : nat) (w : wstep) (e : tend)
   | WRaised => WRaised
   | WDone o =>
       let conds :=
-        if task_cancelled e || task_exception_truthy e
+        if task_cancelled e || task_has_exception e
         then [(CStep i, condition_helper "Ready" o)]   (* outcome=timeout_outcome.result / error_outcome.result *)
         else match w_cond w with
              | Some ty => [(CStep i, condition_helper ty o)]
@@ -160,13 +162,13 @@ Definition sres_ok (o : sres) : bool :=
 
 Definition subworkflow_result (r : wres wresult) (state : json) : tend :=
   match r with
-  | WRaised => Excepted false          (* only a falsy exception object gets this far *)
+  | WRaised => Excepted                (* unreachable: see reconcile_workflow_total *)
   | WDone w => if sres_ok (wr_overall w) then Finished (UVal state) else Finished (wr_overall w)
   end.
 
 (* ---------- _reconcile_step: the dependency gate ---------- *)
 
-Inductive gate := GInvoke | GDepSkip | GCancelled | GExcepted (truthy : bool).
+Inductive gate := GInvoke | GDepSkip | GCancelled | GExcepted.
 
 (* `for task in dependencies: step_result = task.result(); match step_result.result: …`
    — the first dependency that is not Ok decides; task.result() of a cancelled
@@ -176,7 +178,7 @@ Fixpoint gate_of (deps : list tend) : gate :=
   | [] => GInvoke
   | Finished r :: rest => if sres_ok r then gate_of rest else GDepSkip
   | Cancelled :: _ => GCancelled
-  | Excepted t :: _ => GExcepted t
+  | Excepted :: _ => GExcepted
   end.
 
 Record splan := {
@@ -192,7 +194,7 @@ Definition step_end (deps : list tend) (p : splan) : tend * bool :=
   | GInvoke => (p_logic p, true)
   | GDepSkip => (Finished depskip_result, false)
   | GCancelled => (Cancelled, false)
-  | GExcepted t => (Excepted t, false)
+  | GExcepted => (Excepted, false)
   end.
 
 (* a dependency index that does not name an earlier step cannot occur
@@ -395,7 +397,7 @@ Definition tend_of (r : ffres) : tend :=
   | FRes (FStop st) => Finished (UOut (stop_outcome st))
   | FRes (FValue (Some v)) => Finished (UVal v)
   | FRes (FValue None) => Finished (UVal JNull)
-  | FRes FRaise => Excepted true
+  | FRes FRaise => Excepted
   | FHung => Cancelled              (* asyncio.timeout(STEP_TIMEOUT) cancels the task *)
   | FCancelRaised => Cancelled
   end.
